@@ -3329,6 +3329,10 @@ class ISLaSolver:
                             existential_formula,
                         )
                         break
+                    except TimeoutError:
+                        # The satisfiability check exceeded its own time budget: we
+                        # cannot drop the state, and this is no timeout of the solver.
+                        pass
                     finally:
                         self.start_time = old_start_time
                         self.timeout_seconds = old_timeout_seconds
